@@ -84,7 +84,7 @@ func genHistory(r *rand.Rand, g *wsclient.Gen, seed int64) *history {
 		}
 		h.Cfg.Middlewares = append(h.Cfg.Middlewares, m)
 	}
-	for _, c := range []string{"n", "s", "obj", "items", "plain", "nums", "grid", "ku", "pu", "kulist", "ulist", "slow", "exp", "boom", "kids:0", "kids:1", "pick", "item:0", "item:1", "item:2", "item:3"} {
+	for _, c := range []string{"n", "s", "obj", "items", "plain", "nums", "grid", "ku", "pu", "kulist", "ulist", "slow", "exp", "boom", "kids:0", "kids:1", "pick", "mu", "mulist", "lq", "item:0", "item:1", "item:2", "item:3"} {
 		if r.Intn(3) == 0 {
 			h.Cfg.Modes[c] = r.Intn(3)
 		}
@@ -124,11 +124,12 @@ func genHistory(r *rand.Rand, g *wsclient.Gen, seed int64) *history {
 		tag := fmt.Sprintf("t%d", seq)
 		cost := forceCost || r.Intn(4) == 0
 		opts := wsclient.QueryOpts{Slow: !forceCost, Boom: forceBoom || (!forceCost && r.Intn(4) == 0), Cost: cost}
+		opts.LQ = opts.Boom && r.Intn(2) == 0
 		var q string
 		var cells []string
 		var vars map[string]interface{}
 		if !forceCost && !forceBoom && r.Intn(3) == 0 {
-			opts.Boom = false // a re-used document must not bring a failing field into a later subscription
+			opts.Boom, opts.LQ = false, false // a re-used document must not bring a failing field into a later subscription
 			q, vars, cells = g.GenVarQuery(tag, opts)
 		} else {
 			q, cells = g.GenQuery(tag, opts)
@@ -165,7 +166,7 @@ func genHistory(r *rand.Rand, g *wsclient.Gen, seed int64) *history {
 				delete(live, id)
 				h.Steps = append(h.Steps, wsclient.Step{Kind: "unsub", ID: id, Wait: r.Intn(3) == 0, PauseUS: pause(r)})
 			}
-		case x < 31 && x >= 28: // unsubscribe shortly after an invalidation of an idle, already-run subscription
+		case x < 32 && x >= 28: // unsubscribe shortly after an invalidation of an idle, already-run subscription
 			pf := prefer()
 			if len(lids) == 0 || len(pf) == 0 {
 				continue
@@ -180,8 +181,15 @@ func genHistory(r *rand.Rand, g *wsclient.Gen, seed int64) *history {
 				delete(live, id)
 				h.Steps = append(h.Steps, wsclient.Step{Kind: "unsub", ID: id})
 			}
+			if r.Intn(2) == 0 { // the ids are re-used at once, for other queries
+				for k := 1 + r.Intn(2); k > 0 && len(live) < 4; k-- {
+					st := sub(false)
+					st.PauseUS = 0
+					h.Steps = append(h.Steps, st)
+				}
+			}
 			h.Steps = append(h.Steps, wsclient.Step{Kind: "sync", PauseUS: 2 * d})
-		case x >= 31 && x < 36: // an object with an Expensive field leaves the result, changes, comes back, changes again
+		case x >= 32 && x < 37: // an object with an Expensive field leaves the result, changes, comes back, changes again
 			have := false
 			for _, ls := range live {
 				have = have || ls.cost
@@ -196,6 +204,9 @@ func genHistory(r *rand.Rand, g *wsclient.Gen, seed int64) *history {
 			}
 			h.Steps = append(h.Steps, wsclient.Step{Kind: "idle"})
 			ops, _ := g.LeaveReturn()
+			if r.Intn(2) == 0 {
+				ops = append(ops, g.KeySwitch()...) // and a union switching from a key-less to a keyed member
+			}
 			for _, op := range ops {
 				// long enough for the re-run and for the old computation's asynchronous release
 				h.Steps = append(h.Steps, wsclient.Step{Kind: "write", Op: op, PauseUS: 2500 + h.Cfg.WriteThenReadUS + h.Cfg.MinRerunUS + r.Intn(2000)})
@@ -373,7 +384,7 @@ func TestCheck(t *testing.T) {
 	log.SetOutput(io.Discard)
 	run := vlib.Start(t, "C02", "exploration")
 	defer run.Finish()
-	run.Rule("histories over one websocket connection (scripted JSONSocket) against a schemabuilder schema over a mutable store: 14-40 steps of subscribe (ids from a pool of 5, reused after unsubscribe; 1-6 fields over scalars, nullable object, keyed lists (nested), unkeyed object/scalar/nested lists, unions with and without key, union lists, a nullable keyed object, a keyed list of BY-VALUE structs holding a slice (non-comparable sources) with an Expensive field, slow and Expensive fields - also on list elements and on the nullable object, with interned source objects so that the reactive cache can hit), " +
+	run.Rule("histories over one websocket connection (scripted JSONSocket) against a schemabuilder schema over a mutable store: 14-40 steps of subscribe (ids from a pool of 5, reused after unsubscribe; 1-6 fields over scalars, nullable object, keyed lists (nested), unkeyed object/scalar/nested lists, unions with and without key and a union mixing a key-less and a keyed member, union lists, a live-query field (public reactive.Cache, registers then may fail), a nullable keyed object, a keyed list of BY-VALUE structs holding a slice (non-comparable sources) with an Expensive field, slow and Expensive fields - also on list elements and on the nullable object, with interned source objects so that the reactive cache can hit), " +
 		"one third of the subscriptions use a document with variables ($tag, and $k selecting which cell a field reads), whose text is re-used verbatim by later subscriptions with different variable values, subscribe with a live id, unsubscribe (live / unknown id), mutate (own id namespace), echo, direct writes, write bursts, gate steps (a resolver of an in-flight run is held after AddDependency or after reading while 1-3 further writes, optionally an unsubscribe or a mutation, land), leave/change/return/change sequences for one item (out of the keyed list or the nullable object and back), 0/1/3/5/6/7/9 pass-through middlewares registered with conn.Use (some pausing before/after next), transient resolver failures on re-runs (plain error, safe error, errors wrapping context.Canceled / DeadlineExceeded of a resolver-owned context, safe error around one) followed by recovery, unsubscribe-all sent a fraction of the write-then-read delay after a write that invalidates an idle subscription (reactive.WriteThenReadDelay is 0 in half of the histories, 0.5-3 ms in the rest), plus 0-2 writes injected at named hook points; case 0 is a pinned history (unsubscribe during an in-flight run, id re-subscribed while the run's own asynchronous close is pending); " +
 		"cells notify by Invalidate-and-replace, Strobe, or per-read resources (seeded per cell); seeded pacing and yield-hook perturbation. " +
 		"Non-trivial = >= 2 writes logged while a subscription execution was in flight AND >= 1 non-initial update with a structural delta (reorder / removal / object, list or null replacement). Distinct = step-kind sequence + set of non-initial delta shapes.")
